@@ -178,6 +178,12 @@ def core_scenarios():
     # a batch consumer that was exactly caught up on the active block; the producer then rolls over; restart (C06 hydration + tail fold)
     S.append(("caught_up_tail_then_rollover_restart", "strict", "A:t:100 A:t:200 X:t:1000:1 %s O X:t:3000000:1 X:t:30000000:1 R:t" % big))
     S.append(("caught_up_tail_then_rollover_restart_rn", "strict", "A:t:100 R:t %s O R:t X:t:30000000:1 R:t" % big))
+    # a topic name too long for the 256-byte entry header: single and batch appends must be rejected (not panic) and leave no trace (C04, C16)
+    longt = "x" * 300
+    S.append(("long_topic_batch", "strict", "A:t:10 EB:%s:10,20 A:t:20 R:t R:t" % longt))
+    S.append(("long_topic_single", "strict", "A:t:10 E:%s:10 A:t:20 R:t R:t" % longt))
+    S.append(("long_topic_batch_then_restart", "strict", "EB:%s:10,20 E:%s:10 A:t:5 R:t O R:t A:t:6 R:t" % (longt, longt)))
+    S.append(("long_topic_batch_mmap", "strict+mmap", "A:t:10 EB:%s:10,20 A:t:20 R:t R:t" % longt))
     S.append(("stateless_alo_cursor", "alo3", "A:t:300 A:t:300 A:t:300 A:t:300 A:t:300 A:t:300 R:t S:t:1048576:1:0 P:t R:t"))
     # clean/dirty markers across immediate and delayed clean restarts (C17)
     S.append(("clean_immediate_reopen", "strict", "A:t:10 OI P:t C:t OI P:t D:t OI P:t"))
